@@ -7,6 +7,7 @@ import (
 	"math/rand"
 	"os"
 	"path/filepath"
+	"strings"
 
 	"github.com/rkosegi/yaml-toolkit/dom"
 	"github.com/rkosegi/yaml-toolkit/fluent"
@@ -30,12 +31,17 @@ type c04Layer struct {
 type c04Overlay struct {
 	Layers []c04Layer `json:"layers"`
 	Opt    string     `json:"opt"`
+	Dag    bool       `json:"dag,omitempty"` // structurally equal subtrees are ONE node object, inside and between the layers
 }
 
 type c04Source struct {
 	Via string `json:"via"` // yaml | json (override file, Load) | map | dom (Add)
 	Doc W      `json:"doc"`
 }
+
+// c04Vias: how an override reaches the helper; one in eight is a file that breaks off in the middle (Load must fail
+// and leave the helper as it was: the sources after it merge over what was accumulated before it).
+var c04Vias = []string{"yaml", "yaml", "yaml", "json", "json", "map", "dom", "broken-yaml", "broken-json", "yaml", "json", "map", "dom", "yaml", "json", "dom"}
 
 type c04Config struct {
 	Defaults W           `json:"defaults"`
@@ -44,7 +50,7 @@ type c04Config struct {
 
 func init() {
 	register(&Prop{ID: "C04", Run: c04Run,
-		Rule: "pairs of root containers A, B over a shared 6-key pool (B independent, or A after 1-4 local edits: key added/removed, leaf changed, kind swapped, list grown/shrunk/permuted), nulls with probability 0.2, lists of containers and lists of lists, both list strategies, B optionally sealed; overlay cases add 2-4 such documents as layers and read Merged(opts); heap-merge cases build A and B (or 1-3 overlay layers) in one of seven ways (FromMap, AddValue/ListNode with own or shared nil leaves, AddContainer/AddList/Set/Append, subtrees shared inside and between the documents, containers with an add-and-remove history), encode the real object graph as an explicit heap by pointer identity, Merge / Merged, and compare the result's sharing map (which result node is which input object / a new object) with the heap model, snapshot the inputs pointer for pointer, then write in place to the merged containers of the result; config cases send defaults plus 1-3 override sources (YAML file, JSON file, map, dom container) through fluent.ConfigHelper. A case is non-trivial when the two sides (some two layers / sources) share at least one key; distinct = distinct canonical case JSON (hash).",
+		Rule: "pairs of root containers A, B over a shared 6-key pool (B independent, or A after 1-4 local edits: key added/removed, leaf changed, kind swapped, list grown/shrunk/permuted), nulls with probability 0.2, lists of containers and lists of lists, both list strategies, B optionally sealed; overlay cases add 2-4 such documents as layers and read Merged(opts); heap-merge cases build A and B (or 1-3 overlay layers) in one of seven ways (FromMap, AddValue/ListNode with own or shared nil leaves, AddContainer/AddList/Set/Append, subtrees shared inside and between the documents, containers with an add-and-remove history), encode the real object graph as an explicit heap by pointer identity, Merge / Merged, and compare the result's sharing map (which result node is which input object / a new object) with the heap model, snapshot the inputs pointer for pointer, then write in place to the merged containers of the result; config cases send defaults plus 1-3 override sources (YAML file, JSON file, map, dom container) through fluent.ConfigHelper (six of them with an override file just over 512 B / 4 KiB / 64 KiB); seq cases merge the SAME A with 2-3 documents one after the other (half of them sparse documents that extend one of A's lists by 1-3 items; lists of up to 7 items, so that item slices have spare capacity), with itself under both strategies, and each B with A, re-observe every earlier result after all later merges, then edit A in place (domhist.go: AddValue / Remove / Set / MustSet / Append / Clear through nested builders, Lookup, the root's path API) and merge again; one in five builds all documents of the case so that structurally equal subtrees are one node object. A case is non-trivial when the two sides (some two layers / sources) share at least one key; distinct = distinct canonical case JSON (hash).",
 		Assumptions: []string{
 			"scalars are NaN-free and -0-free; a leaf is null iff its Go value is nil (wire scalar {nil,<nil>})",
 			"keys are arbitrary strings (a path-safe pool, and a second pool with dots, slashes, spaces, '~', brackets, non-ASCII text and the empty key); no key ends in an index group `[digits]`: the API invariant discussed under D26",
@@ -98,7 +104,7 @@ func c04Run(c *Ctx) {
 			ls[j] = c04Layer{Name: fmt.Sprintf("L%d", j), Doc: prev}
 			prev = second(prev)
 		}
-		c.Do("overlay", c04Overlay{Layers: ls, Opt: opt()})
+		c.Do("overlay", c04Overlay{Layers: ls, Opt: opt(), Dag: r.Intn(4) == 0})
 	}
 	for i := 0; i < c.N(500); i++ {
 		c.Tick()
@@ -108,10 +114,33 @@ func c04Run(c *Ctx) {
 		prev := def
 		for j := range srcs {
 			prev = second(prev)
-			srcs[j] = c04Source{Via: pick(r, []string{"yaml", "yaml", "json", "json", "map", "dom"}), Doc: prev}
+			srcs[j] = c04Source{Via: pick(r, c04Vias), Doc: prev}
 		}
 		c.Do("config", c04Config{Defaults: def, Sources: srcs})
 	}
+	// size thresholds of the file entry point: an override file just over 512 B / 4 KiB / 64 KiB (one long value, or
+	// many list items), a multi-byte character next to the threshold
+	if !c.searchMode || c.Thorough() {
+		for i, size := range []int{512, 4096, 65536, 512, 4096, 65536} {
+			c.Tick()
+			def := g.Doc(r)
+			src := second(def)
+			if m, ok := wireCont(src); ok {
+				if i < 3 {
+					m["pad"] = scalarWire(strings.Repeat("a", size-8) + "é€𝄞" + strings.Repeat("b", 40))
+				} else {
+					l := []any{}
+					for j := 0; j*80 < size; j++ {
+						l = append(l, scalarWire(fmt.Sprintf("%s%d", strings.Repeat("x", 60), j)), scalarWire(nil))
+					}
+					m["pad"] = l
+				}
+			}
+			c.Dist("config:big-override-file")
+			c.Do("config", c04Config{Defaults: def, Sources: []c04Source{{Via: pick(r, []string{"yaml", "json"}), Doc: src}, {Via: "map", Doc: second(def)}}})
+		}
+	}
+	c04RunSeq(c, opt) // c04_seq.go: the same receiver merged several times, read and edited in between, merged with itself
 	// pointer level: the real object graph against the heap model's sharing map (heap_share.go)
 	heapMergeGen(c, g, second, opt, c.N(900))
 	c04RunKeys(c, opt) // c04_keys.go: the same three routes over keys that are arbitrary strings
@@ -385,6 +414,8 @@ func c04Eval(c *Ctx, kind string, raw []byte) {
 		c.Direct("self-merge-meld-identity", canon(self) == canon(p.A) && eqSelf, self)
 		c.Corr("merge", rw, c.Model("merge", map[string]any{"a": p.A, "b": p.B, "opt": p.Opt}))
 		c.Corr("merge(AsMap)", rmap, c.Model("merge", map[string]any{"a": am0, "b": bm0, "opt": p.Opt}))
+	case "seq":
+		c04EvalSeq(c, raw) // c04_seq.go
 	case "pair-frommap":
 		c04EvalFromMap(c, raw) // c04_keys.go
 	case "overlay":
@@ -402,6 +433,9 @@ func c04Eval(c *Ctx, kind string, raw []byte) {
 		app := p.Opt == "append"
 		c.Dist("opt:" + p.Opt)
 		c.Dist(fmt.Sprintf("overlay:layers=%d", len(p.Layers)))
+		if p.Dag {
+			c.Dist("overlay:shared-node-objects")
+		}
 		for i := 1; i < len(p.Layers); i++ {
 			if c04Stats(c, p.Layers[i-1].Doc, p.Layers[i].Doc, true) {
 				c.Nontrivial()
@@ -411,8 +445,15 @@ func c04Eval(c *Ctx, kind string, raw []byte) {
 		var before, after []W
 		out, txt := guard(func() {
 			ov := dom.NewOverlayDocument()
+			memo := map[string]dom.Node{}
+			var given []dom.Node
 			for _, l := range p.Layers {
-				ov.Add(l.Name, wireContainer(l.Doc))
+				if p.Dag {
+					given = append(given, heapBuildDag(l.Doc, memo))
+				} else {
+					given = append(given, wireContainer(l.Doc))
+				}
+				ov.Add(l.Name, given[len(given)-1].(dom.Container))
 			}
 			snap := func() []W {
 				var s []W
@@ -424,6 +465,13 @@ func c04Eval(c *Ctx, kind string, raw []byte) {
 			}
 			before = snap()
 			m := ov.Merged(c04Opts(p.Opt)...)
+			finite := dhAcyclic(m)
+			for _, d := range given {
+				finite = finite && dhAcyclic(d)
+			}
+			if !c.Direct("merged-view-and-layers-are-finite-trees", finite, "after Merged a container or list contains itself") {
+				panic("harness: cyclic document, not observed any further")
+			}
 			mw, mmap = nodeWire(m), plainWire(m.AsMap())
 			after = snap()
 			// the same fold computed with ContainerBuilder.Merge itself
@@ -468,9 +516,40 @@ func c04Eval(c *Ctx, kind string, raw []byte) {
 		// write the override files and decode them with the control decoders
 		docs := []W{p.Defaults}
 		files := make([]string, len(p.Sources))
+		mustFail := make([]bool, len(p.Sources))
 		for i, s := range p.Sources {
 			c.Dist("config:via=" + s.Via)
 			plain := wirePlain(s.Doc)
+			switch s.Via {
+			case "broken-yaml", "broken-json":
+				// the rendering of the document, cut in the middle, then junk; what the control decoder makes of it decides
+				// what is expected (an error: Load fails; a document after all: it is merged)
+				var data []byte
+				var err error
+				ctl := map[string]any{}
+				ext := "yaml"
+				if s.Via == "broken-yaml" {
+					data, _ = yaml.Marshal(plain)
+					data = append(append([]byte{}, data[:len(data)/2]...), "\n\t- [: }\n"...)
+					err = yaml.NewDecoder(bytes.NewReader(data)).Decode(&ctl)
+				} else {
+					ext = "json"
+					data, _ = json.Marshal(plain)
+					data = append(append([]byte{}, data[:len(data)/2]...), "]}{"...)
+					err = json.NewDecoder(bytes.NewReader(data)).Decode(&ctl)
+				}
+				files[i] = filepath.Join(dir, fmt.Sprintf("broken%d.%s", i, ext))
+				if werr := os.WriteFile(files[i], data, 0o644); werr != nil {
+					panic(werr)
+				}
+				if err != nil {
+					mustFail[i] = true
+					c.Dist("config:broken-file-fails")
+				} else {
+					docs = append(docs, plainWire(ctl))
+				}
+				continue
+			}
 			switch s.Via {
 			case "yaml", "json":
 				var data []byte
@@ -511,6 +590,9 @@ func c04Eval(c *Ctx, kind string, raw []byte) {
 			h := fluent.NewConfigHelper[map[string]any]().Add(wirePlain(p.Defaults).(map[string]any))
 			for i, s := range p.Sources {
 				switch s.Via {
+				case "broken-yaml", "broken-json":
+					o, t := guard(func() { h = h.Load(files[i]) })
+					c.Direct("config-load-fails-iff-control-decoder-fails", (o != "ok") == mustFail[i], map[string]any{"source": i, "outcome": o, "text": t})
 				case "yaml", "json":
 					h = h.Load(files[i])
 				case "map":
@@ -520,6 +602,10 @@ func c04Eval(c *Ctx, kind string, raw []byte) {
 				}
 			}
 			got = plainWire(*h.Result())
+			// repeated use: a second Result is what the first was, whatever was done with the first
+			first := h.Result()
+			c01Scribble(*first)
+			c.Direct("config-result-twice-equal", canon(plainWire(*h.Result())) == canon(got), map[string]any{"first": got, "second": plainWire(*h.Result())})
 			// the same law with Merge itself: defaults, then each source merged over the accumulated document
 			acc := dom.Builder().Container()
 			for _, d := range docs {
